@@ -366,7 +366,7 @@ class Run:
             rec = {'state': 'idle', 'exc': None, 'ops': []}
             q = asyncio.Queue()
             run.started.append({'rec': rec, 'q': q, 'task': asyncio.current_task(),
-                                'sid': stream._stream.id, 'sent_initial': False})
+                                'sid': None, 'sent_initial': False})   # sid: set by the opener
             try:
                 while True:
                     cmd = await q.get()
@@ -424,8 +424,10 @@ class Run:
                 self.calls.append(call)
             else:
                 n0 = len(self.started)
-                self.peer.request(P.REQ_HEADERS)
+                sid = self.peer.request(P.REQ_HEADERS)       # the scripted peer chose the stream id
                 self.loop.run_quiet(0.0)
+                for c in self.started[n0:]:                  # the handler this request started
+                    c['sid'] = sid
                 self.calls += self.started[n0:]
         elif action == 'credit':
             # the peer returns flow-control credit: stalled senders resume
